@@ -37,14 +37,16 @@ def cases(draw, nums=("frac",), ops=None, alike=False):
     ratA = draw(st.integers(0, 2)) == 0
     ratB = draw(st.integers(0, 2)) == 0
     dimA = dimB = 0
+    # vector dimension: 2 or 3, or one that coincides with a number of control points in play (operand, sum, product)
+    vdim = draw(gen.point_dim([nA, nB, nA + nB - 1, nA + nB, max(nA, nB) + 1]))
     if op in ("add", "sub"):
-        dimA = dimB = draw(st.sampled_from([0, 0, 2, 3]))
+        dimA = dimB = draw(st.sampled_from([0, 0, vdim, vdim]))
     elif op == "mul":
-        dimA, dimB = draw(st.sampled_from([(0, 0), (0, 0), (2, 0), (0, 2), (3, 0)]))
+        dimA, dimB = draw(st.sampled_from([(0, 0), (0, 0), (vdim, 0), (0, vdim), (vdim, 0)]))
     elif op == "matmul":
-        dimA = dimB = draw(st.sampled_from([2, 3]))
+        dimA = dimB = vdim
     elif op == "div":
-        dimA = draw(st.sampled_from([0, 0, 2]))
+        dimA = draw(st.sampled_from([0, 0, vdim]))
     elif op in ("rmatmul", "matmuls"):
         dimA = 2
     elif op == "rdiv":
